@@ -20,6 +20,11 @@ ASSUMPTIONS = [
 
 def episode_for(project, rng, all_subs=False):
     ep = sc.ScanEpisode(project)
+    if rng.random() < 0.4:
+        # sub directories first, the root afterwards: the outcome of a scan must not depend on what was scanned before
+        pre = [d for d in project["dirs"] if len(d) > 1]
+        for d in rng.sample(pre, min(2, len(pre))):
+            ep.scan(mpath=d)
     s0 = ep.scan()
     sm = ep.scan(entry="module")
     ep.law("entry", [s0, sm])
@@ -27,12 +32,16 @@ def episode_for(project, rng, all_subs=False):
     for i, rule in enumerate(sc.rules_above(sc.all_modules(project), 99, rng, 6)):
         ep.seval(s0, f"R{i}", rule)
     subs = [d for d in project["dirs"] if len(d) > 1]
-    for d in (subs if all_subs else rng.sample(subs, min(3, len(subs)))):
+    chosen = subs if all_subs else rng.sample(subs, min(3, len(subs)))
+    chosen += [d for d in project.get("rel_dirs", []) if d not in chosen]     # directories with parent-relative names
+    for d in chosen:
         sd = ep.scan(mpath=d)
         ep.law("restrict", [s0, sd])
         if rng.random() < 0.3:
             sdm = ep.scan(mpath=d, entry="module")
             ep.law("entry", [sd, sdm])
+    s9 = ep.scan()                      # the root once more, after all the sub scans
+    ep.law("same", [s0, s9])
     return ep.spec
 
 
